@@ -12,6 +12,7 @@ import Snmp.Model.Walk
 import Snmp.Model.Ops
 import Snmp.Model.Cfg
 import Snmp.Model.Fault
+import Snmp.Model.Pyth
 open Lean Snmp
 
 namespace Driver
@@ -304,6 +305,47 @@ def cfgRun (j : Json) : Except String Json := do
     | some .boom => "boom"
   pure (Json.mkObj [("obs", toJson (r.obs.map obsToJson)), ("err", err), ("final", obsToJson (Cfg.peek r.state))])
 
+/-! ### py.wrap -/
+partial def pyValToJson : Pyth.PyVal → Json
+  | .int v => toJson (#[toJson "int", toJson v] : Array Json)
+  | .bytes b => toJson (#[toJson "bytes", toJson (toHex b)] : Array Json)
+  | .none => toJson (#[toJson "none"] : Array Json)
+  | .str s => toJson (#[toJson "str", toJson s] : Array Json)
+  | .timedelta m => toJson (#[toJson "timedelta", toJson m] : Array Json)
+  | .ipv4 n => toJson (#[toJson "ipv4", toJson n] : Array Json)
+  | .list l => toJson (#[toJson "list", toJson (l.map pyValToJson)] : Array Json)
+  | .tuple l => toJson (#[toJson "tuple", toJson (l.map pyValToJson)] : Array Json)
+  | .dict l => toJson (#[toJson "dict", toJson (l.map fun p => toJson (#[pyValToJson p.1, pyValToJson p.2] : Array Json))] : Array Json)
+  | .leak c => toJson (#[toJson "leak", toJson c] : Array Json)
+
+def pyWrap (j : Json) : Except String Json := do
+  let m ← j.getObjValAs? String "method"
+  let raw ← j.getObjVal? "raw"
+  match m with
+  | "get" => pure (pyValToJson (Pyth.get (← valOfJson raw)))
+  | "getnext" => pure (pyValToJson (Pyth.getnext (← vbOfJson raw)))
+  | "multiget" => do
+    let a ← raw.getArr?
+    pure (pyValToJson (Pyth.multiget (← a.toList.mapM valOfJson)))
+  | "multiset" => pure (pyValToJson (Pyth.multiset (← vbsOfJson raw)))
+  | "set" =>
+    match Pyth.set (← oidOfJson (← j.getObjVal? "oid")) (← vbsOfJson raw) with
+    | some r => pure (pyValToJson r)
+    | none => pure (toJson (#[toJson "KeyError"] : Array Json))
+  | "walk" => pure (pyValToJson (Pyth.walk (← vbsOfJson raw)))
+  | "bulkget" =>
+    pure (pyValToJson (Pyth.bulkget (← vbsOfJson (← raw.getObjVal? "scalars")) (← vbsOfJson (← raw.getObjVal? "listing"))))
+  | "table" => do
+    let a ← raw.getArr?
+    let rows ← a.toList.mapM fun r => do
+      let cells ← (← r.getObjVal? "cells").getArr?
+      let cs ← cells.toList.mapM fun c => do
+        let p ← c.getArr?
+        pure (← (p[0]?.getD Json.null).getStr?, ← valOfJson (p[1]?.getD Json.null))
+      pure (⟨← r.getObjValAs? String "index", cs⟩ : Pyth.RawRow)
+    pure (pyValToJson (Pyth.table rows))
+  | _ => throw s!"bad method {m}"
+
 def handle (j : Json) : Except String Json := do
   let op ← j.getObjValAs? String "op"
   match op with
@@ -318,6 +360,7 @@ def handle (j : Json) : Except String Json := do
   | "walk.run" => walkRun j
   | "ops.run" => opsRun j
   | "cfg.run" => cfgRun j
+  | "py.wrap" => pyWrap j
   | _ => throw s!"bad-op {op}"
 
 end Driver
